@@ -189,6 +189,37 @@ def run_max_count(ctx, n):
                         break
                 while exp and exp[-1] == b"--":
                     exp.pop()
+            # the same limit through the summary printer, with and without --stats: -c counts the first N matching
+            # lines, --count-matches the matches inside them
+            nm = len(match_lnums)
+            want_c = min(N, nm)
+            for extra in ([], ["--stats"]) if N > 0 else ():     # -m 0 searches nothing at all
+                cc = subprocess.run(base + ["-c", "--include-zero", "-m", str(N)] + extra + [f], stdin=subprocess.DEVNULL,
+                                    stdout=subprocess.PIPE, stderr=subprocess.PIPE)
+                runs += 1
+                first = cc.stdout.split(b"\n")[0]
+                if first != str(want_c).encode():
+                    ctx.violation("rg -c -m N does not count exactly the first N matching lines",
+                                  dict(kind="cli-m-count", data=repr(data), flags=flags + extra, N=N, pattern=pat,
+                                       got=repr(cc.stdout[:200]), expected=want_c))
+            if "-v" not in flags and N > 0:
+                oo = subprocess.run([vlib.RG, "--no-config", "--color", "never", "--no-heading", "-I", "-n", "-o", "-e", pat, f],
+                                    stdin=subprocess.DEVNULL, stdout=subprocess.PIPE, stderr=subprocess.PIPE)
+                per_line = {}
+                for x in oo.stdout.split(b"\n"):
+                    mm = re.match(rb"^(\d+):", x)
+                    if mm:
+                        per_line[int(mm.group(1))] = per_line.get(int(mm.group(1)), 0) + 1
+                want_cm = sum(per_line.get(l, 0) for l in match_lnums[:N])
+                for extra in ([], ["--stats"]):
+                    cm = subprocess.run(base + ["--count-matches", "--include-zero", "-m", str(N)] + extra + [f],
+                                        stdin=subprocess.DEVNULL, stdout=subprocess.PIPE, stderr=subprocess.PIPE)
+                    runs += 1
+                    first = cm.stdout.split(b"\n")[0]
+                    if first != str(want_cm).encode():
+                        ctx.violation("rg --count-matches -m N does not count the matches of exactly the first N matching lines",
+                                      dict(kind="cli-m-count-matches", data=repr(data), flags=flags + extra, N=N, pattern=pat,
+                                           got=repr(cm.stdout[:200]), expected=want_cm))
             got = [x for x in lim.stdout.split(b"\n") if x != b""]
             ctx.note_case("m%d" % i + repr((data, a, b, N, pat, flags)), len(match_lnums) > N > 0)
             if got != exp:
